@@ -342,8 +342,9 @@ async fn post_handshake(ctx: &mut Ctx, ty: &str, cut: &str, fault: &str, order: 
             _ => {}
         }
     }
-    for (k, l) in e.live.iter().enumerate() {
-        if let Err(why) = exchange_with(&mut e.sock, l, 40 + k as u16).await {
+    {
+        let refs: Vec<&Peer> = e.live.iter().collect();
+        if let Err(why) = exchange_all(&mut e.sock, &refs, 40).await {
             ctx.violation_with(&sig("live-peer-disturbed"), format!("after one peer ended ({fault}, {cut}): {why}"), case.clone());
             return;
         }
@@ -410,8 +411,9 @@ async fn mid_handshake(ctx: &mut Ctx, ty: &str, off: usize, fault: &str, nlive: 
         return;
     }
     ctx.count("released_after_observation");
-    for (k, l) in live.iter().enumerate() {
-        if let Err(why) = exchange_with(&mut sock, l, 40 + k as u16).await {
+    {
+        let refs: Vec<&Peer> = live.iter().collect();
+        if let Err(why) = exchange_all(&mut sock, &refs, 40).await {
             ctx.violation_with(&sig("live-peer-disturbed"), format!("after a failed handshake: {why}"), case.clone());
             return;
         }
